@@ -118,12 +118,15 @@ def no_revisit_evidence(p_mt, u_mt, tol=1e-9):
         if Xu is not None and not Xu.stop and Xu.logprob >= X.logprob - tol * max(1.0, abs(X.logprob)):
             continue
         if (Xu is not None and not Xu.stop and {q.key for q in Xu.prev} == {P.key} and {q.key for q in X.prev} == {P.key}
-                and abs((Xu.logprob - Pu.logprob) - (X.logprob - P.logprob)) > 1e-9 * max(1.0, abs(X.logprob))):
-            # third path-dependent ingredient: BOTH lattices hold the step P -> X (X's recorded predecessor is P in both), the unpruned
+                and abs((Xu.logprob - Pu.logprob) - (X.logprob - P.logprob)) > 1e-9 * max(1.0, abs(X.logprob))
+                and (abs(Pu.logprobe - P.logprobe) > 1e-12 or abs(Pu.logprobne - P.logprobne) > 1e-12)):
+            # third path-dependent ingredient (BaseMatching.next: a non-emitting chain scores logprobe + min(step scores), not a sum, so the
+            # total of P does not determine the total of X - the split (logprobe, logprobne) of P does): BOTH lattices hold the step P -> X (X's recorded predecessor is P in both), the unpruned
             # one starts it from a P that is at least as probable but was reached from another predecessor, and scores the SAME step differently
             return ("step-score", f"step {P.key} -> {X.key} is held by both lattices with {P.key} as the recorded predecessor; unpruned holds {P.key} at {Pu.logprob!r} "
                     f"(pruned {P.logprob!r}) reached from {[q.key for q in Pu.prev]} instead of {[q.key for q in P.prev]}, and scores the step "
-                    f"{Xu.logprob - Pu.logprob!r} instead of {X.logprob - P.logprob!r}")
+                    f"{Xu.logprob - Pu.logprob!r} instead of {X.logprob - P.logprob!r}: split (logprobe, logprobne) of {P.key} is "
+                    f"({Pu.logprobe!r}, {Pu.logprobne!r}) instead of ({P.logprobe!r}, {P.logprobne!r})")
         try:
             forbidden = u_mt._node_in_prev_ne(Pu, X.edge_m.l2 if X.edge_m.l2 is not None else X.edge_m.l1)
         except Exception:
